@@ -20,6 +20,7 @@ Inductive c17_case :=
 | BodyCase (q : breq) (prn : list N) (tbl : list (bytes * bytes)) (o : body_obs)   (* end to end, at the origin *)
 | WriterCase (total interval t0 : Z) (evs : list (Z * Z)) (obs : list Z)
 | ReaderCase (interval t0 : Z) (evs : list (Z * bool * Z)) (obs : list Z)
+| CallCase (interval : Z) (bodies : list body_run) (obs : list Z)   (* redirect hops + saved body *)
 | WriterAnyClock (total : Z) (ns : list Z) (obs : list Z)
 | ReaderAnyClock (ns : list Z) (obs : list Z).
 
@@ -111,6 +112,7 @@ Definition c17_check (c : c17_case) : bool :=
       zlist_eqb (run_writer total interval (w0 t0) evs) obs
   | ReaderCase interval t0 evs obs =>
       zlist_eqb (run_reader interval (r0 t0) evs) obs
+  | CallCase interval bodies obs => zlist_eqb (call_reports interval bodies) obs
   | WriterAnyClock total ns obs =>
       subseq obs (running 0 ns) &&
       (if existsb (Z.eqb total) (running 0 ns) then existsb (Z.eqb total) obs else true)
